@@ -37,7 +37,7 @@ def build(seed, i, tier):
     nres = rs.choice([1, 1, 2, 3])
     nobjs = [rs.choice([1, 1, 2]) for _ in range(nres)]
     cfg = {"prop": ID, "family": fam, "kind": kind, "wc": rs.random() < 0.5, "threading": True, "oracles": [],
-           "uuid_seed": rs.getrandbits(32), "opcode": tier == "thorough" and rs.random() < 0.15,
+           "uuid_seed": rs.getrandbits(32), "opcode": rs.random() < (0.15 if tier == "thorough" else 0.06),
            "strategy": ns.families[fam]["strategy"]}
     pre, inits = [], []
     for r in range(nres):
